@@ -1,6 +1,6 @@
 (* SLane_proofs.v — invariants of the serial-lane model (Model/SLane.v): any number of pushers and workers, any
    interleaving.  The word-level facts come from Proofs/Lane_fields.v (specifications of the generated bodies). *)
-From Coq Require Import ZArith Bool List Lia.
+From Coq Require Import ZArith Bool List Lia FinFun.
 From Verif Require Import Word Bits Fields DqFields Conc Gen_consts Gen_dqstate Lane_fields SLane.
 Import ListNotations.
 Local Open Scope Z_scope.
@@ -34,42 +34,761 @@ Definition thread_inv (s : gst) (t : Z) : Prop :=
 Definition free (r : dqf) : Prop := f_owner r = 0 /\ f_ib r = 0 /\ f_wq r = 4095.
 Definition held (r : dqf) (w : Z) : Prop := f_owner r = w /\ f_ib r = 1 /\ f_wq r = 4096.
 
+(* the item the lock holder has popped and not yet begun *)
+Definition inflight_pc (p : pc) : list Z := match p with PW_run _ i _ => [i] | _ => [] end.
 Definition inflight (s : gst) : list Z :=
   match token s with
-  | Some (Some w) => match pcs s w with PW_run _ i _ => [i] | _ => [] end
+  | Some (Some w) => inflight_pc (pcs s w)
   | _ => []
   end.
+Definition running_pc (w : Z) (p : pc) : option (Z * Z) := match p with PW_incall _ i _ => Some (w, i) | _ => None end.
 
 Definition zrange (n : Z) : list Z := map Z.of_nat (seq 0 (Z.to_nat n)).
 
-Definition ginv (s : gst) : Prop :=
-  exists r, st s = enc r /\ wfr r /\
-    f_tr r = 0 /\ f_em r = 0 /\ f_pb r = 0 /\ f_hi r = 0 /\ f_role r < 2 /\
-    (f_enq r = 1 <-> token s <> None) /\
-    rootq s = (match token s with Some None => 1 | _ => 0 end) /\
-    (match token s with
-     | Some (Some w) => valid_tid w /\ (if locked_pc (pcs s w) then held r w else free r)
-     | _ => free r
-     end) /\
-    (lst s <> [] -> token s <> None \/ wakers s <> []) /\
-    (forall w, token s = Some (Some w) -> unlocking_pc (pcs s w) = true -> lst s <> [] -> wakers s = [] -> f_d r = 1) /\
-    NoDup (wakers s) /\
-    0 <= nextid s /\
-    rev (started s) ++ inflight s ++ map e_id (lst s) = zrange (nextid s) /\
-    running s = (match token s with
-                 | Some (Some w) => match pcs s w with PW_incall _ i _ => Some (w, i) | _ => None end
-                 | _ => None
-                 end).
+Record ginv_r (s : gst) (r : dqf) : Prop := {
+  g_enc : st s = enc r;
+  g_wf : wfr r;
+  g_tr : f_tr r = 0;
+  g_em : f_em r = 0;
+  g_pb : f_pb r = 0;
+  g_hi : f_hi r = 0;
+  g_role : f_role r < 2;
+  g_enq : f_enq r = 1 <-> token s <> None;
+  g_rootq : rootq s = (match token s with Some None => 1 | _ => 0 end);
+  g_lock : match token s with
+           | Some (Some w) => valid_tid w /\ (if locked_pc (pcs s w) then held r w else free r)
+           | _ => free r
+           end;
+  (* a non-empty list always has somebody responsible for it *)
+  g_nostrand : lst s <> [] -> token s <> None \/ wakers s <> [];
+  (* ... and the drainer about to give the lane back cannot miss it: DIRTY is set *)
+  g_dirty : forall w, token s = Some (Some w) -> unlocking_pc (pcs s w) = true -> lst s <> [] -> wakers s = [] -> f_d r = 1;
+  g_nodup : NoDup (wakers s);
+  g_nextid : 0 <= nextid s;
+  g_order : rev (started s) ++ inflight s ++ map e_id (lst s) = zrange (nextid s);
+  g_running : running s = (match token s with Some (Some w) => running_pc w (pcs s w) | _ => None end)
+}.
 
-Definition Inv (s : gst) : Prop := ginv s /\ forall t, thread_inv s t.
+Definition Inv (s : gst) : Prop := (exists r, ginv_r s r) /\ forall t, thread_inv s t.
 
 Lemma Inv_init rb : 0 <= rb < 2 -> Inv (init_state rb).
 Proof.
   intros Hrb. split.
-  - exists (mk 0 0 0 0 0 rb 0 0 0 4095 0 0). unfold init_state; cbn [st token rootq lst wakers started nextid running pcs].
-    split; [rewrite enc_linear; unfold mk; cbn; rewrite Z.shiftl_mul_pow2 by lia; change (2^41) with 2199023255552; lia|].
-    split; [unfold wfr, mk; cbn; repeat split; lia|].
-    unfold mk; cbn. repeat split; try lia; try congruence; try (intros; congruence); try constructor.
-    unfold free; cbn; auto.
+  - exists (mk 0 0 0 0 0 rb 0 0 0 4095 0 0). unfold init_state.
+    constructor; cbn [st token rootq lst wakers started nextid running pcs]; unfold mk; cbn [f_tr f_em f_pb f_hi f_role f_enq f_d];
+      try lia; try congruence; try reflexivity.
+    + rewrite enc_linear; cbn [f_owner f_tr f_enq f_mq f_ov f_role f_em f_d f_pb f_wq f_ib f_hi];
+      rewrite Z.shiftl_mul_pow2 by lia; change (2^41) with 2199023255552; lia.
+    + unfold wfr; cbn [f_owner f_tr f_enq f_mq f_ov f_role f_em f_d f_pb f_wq f_ib f_hi]; repeat split; lia.
+    + split; [discriminate | congruence].
+    + unfold free; cbn; auto.
+    + constructor.
   - intros t. unfold thread_inv, init_state; cbn. repeat split; intros; try discriminate; try contradiction.
+Qed.
+
+(* ---------------------------------------------------------------- small list facts *)
+Lemma in_remove_z t u l : In u (remove_z t l) <-> In u l /\ u <> t.
+Proof.
+  induction l as [|x l IH]; cbn [remove_z In]; [tauto|].
+  destruct (Z.eqb_spec x t) as [->|Hx]; cbn [In]; rewrite IH; split.
+  - intros [H1 H2]; auto.
+  - intros [[H1|H1] H2]; [congruence|auto].
+  - intros [H1|[H1 H2]]; [subst; auto|auto].
+  - intros [[H1|H1] H2]; auto.
+Qed.
+
+Lemma nodup_remove_z t l : NoDup l -> NoDup (remove_z t l).
+Proof.
+  induction 1 as [|x l Hx Hl IH]; cbn [remove_z]; [constructor|].
+  destruct (x =? t); [exact IH|]. constructor; [|exact IH]. rewrite in_remove_z. tauto.
+Qed.
+
+Lemma map_id_link l i : map e_id (link_id l i) = map e_id l.
+Proof.
+  induction l as [|e l IH]; cbn [link_id map]; [reflexivity|].
+  destruct (Z.eqb_spec (e_id e) i) as [E|E]; cbn [map e_id]; [rewrite E; reflexivity | rewrite IH; reflexivity].
+Qed.
+
+Lemma link_nil_iff l i : link_id l i = [] <-> l = [].
+Proof.
+  destruct l as [|e l]; cbn [link_id]; [tauto|]. destruct (e_id e =? i); split; discriminate.
+Qed.
+
+Lemma zrange_succ n : 0 <= n -> zrange (n + 1) = zrange n ++ [n].
+Proof.
+  intros H. unfold zrange. replace (Z.to_nat (n + 1)) with (S (Z.to_nat n)) by lia.
+  rewrite seq_S, map_app. cbn [map plus]. rewrite Z2Nat.id by lia. reflexivity.
+Qed.
+
+Lemma zrange_nodup n : NoDup (zrange n).
+Proof.
+  unfold zrange. apply FinFun.Injective_map_NoDup; [|apply seq_NoDup]. intros a b H. lia.
+Qed.
+
+Lemma in_zrange n x : In x (zrange n) <-> 0 <= x < n.
+Proof.
+  unfold zrange. rewrite in_map_iff. split.
+  - intros [k [<- Hk]]. apply in_seq in Hk. lia.
+  - intros H. exists (Z.to_nat x). split; [lia|]. apply in_seq. lia.
+Qed.
+
+(* ---------------------------------------------------------------- word facts in the shape the steps need *)
+Lemma merged_same r q :
+  f_owner (merged r q) = f_owner r /\ f_tr (merged r q) = f_tr r /\ f_enq (merged r q) = f_enq r /\
+  f_role (merged r q) = f_role r /\ f_em (merged r q) = f_em r /\ f_d (merged r q) = f_d r /\
+  f_pb (merged r q) = f_pb r /\ f_wq (merged r q) = f_wq r /\ f_ib (merged r q) = f_ib r /\ f_hi (merged r q) = f_hi r.
+Proof. unfold merged. destruct (f_mq r <? q); cbn; repeat split; reflexivity. Qed.
+
+Lemma enq_changed r1 r2 : wfr r1 -> wfr r2 ->
+  (Z.land (Z.lxor (enc r1) (enc r2)) 2147483648 =? 0) = (f_enq r1 =? f_enq r2).
+Proof.
+  intros W1 W2. pose proof W1 as W1'. pose proof W2 as W2'. unfold wfr in W1', W2'.
+  rewrite (enc_vec r1), (enc_vec r2). rewrite encode_lxor by wfv_tac. cbn [map2].
+  assert (Hb : forall a b, 0 <= a < 2 -> 0 <= b < 2 -> 0 <= Z.lxor a b < 2).
+  { intros a b Ha Hb. assert (a = 0 \/ a = 1) as [->| ->] by lia; assert (b = 0 \/ b = 1) as [->| ->] by lia; cbn; lia. }
+  assert (Hx : 0 <= Z.lxor (f_enq r1) (f_enq r2) < 2) by (apply Hb; lia).
+  assert (WV : wfv LAY [Z.lxor (f_owner r1) (f_owner r2); Z.lxor (f_tr r1) (f_tr r2); Z.lxor (f_enq r1) (f_enq r2);
+                        Z.lxor (f_mq r1) (f_mq r2); Z.lxor (f_ov r1) (f_ov r2); Z.lxor (f_role r1) (f_role r2);
+                        Z.lxor (f_em r1) (f_em r2); Z.lxor (f_d r1) (f_d r2); Z.lxor (f_pb r1) (f_pb r2);
+                        Z.lxor (f_wq r1) (f_wq r2); Z.lxor (f_ib r1) (f_ib r2); Z.lxor (f_hi r1) (f_hi r2)]).
+  { apply wfv12;
+      [apply (lxor_small _ _ 30) | apply (lxor_small _ _ 1) | apply (lxor_small _ _ 1) | apply (lxor_small _ _ 3)
+      | apply (lxor_small _ _ 1) | apply (lxor_small _ _ 2) | apply (lxor_small _ _ 1) | apply (lxor_small _ _ 1)
+      | apply (lxor_small _ _ 1) | apply (lxor_small _ _ 13) | apply (lxor_small _ _ 1) | apply (lxor_small _ _ 9)];
+      (change (2 ^ 30) with 1073741824 || change (2 ^ 1) with 2 || change (2 ^ 3) with 8 || change (2 ^ 2) with 4
+       || change (2 ^ 13) with 8192 || change (2 ^ 9) with 512 || idtac); lia. }
+  rewrite (land_vec_const _ 2147483648) by (exact WV || lia).
+  let d := eval vm_compute in (decode LAY 2147483648) in change (decode LAY 2147483648) with d. cbn [map2].
+  fsimp. rewrite vec_linear.
+  assert (f_enq r1 = 0 \/ f_enq r1 = 1) as [E1|E1] by lia; assert (f_enq r2 = 0 \/ f_enq r2 = 1) as [E2|E2] by lia;
+    rewrite E1, E2; reflexivity.
+Qed.
+
+(* ---------------------------------------------------------------- frame lemmas *)
+Ltac sproj := cbn [st lst rootq pcs nextid started running token wakers set_pc set_st set_lst set_rootq set_token set_wakers].
+Ltac sproj_in H := cbn [st lst rootq pcs nextid started running token wakers set_pc set_st set_lst set_rootq set_token set_wakers] in H.
+
+Lemma not_holder s t : thread_inv s t -> token_pc (pcs s t) = false -> token s <> Some (Some t).
+Proof. intros (T & _) H E. apply T in E. congruence. Qed.
+
+Lemma holder s t : thread_inv s t -> token_pc (pcs s t) = true -> token s = Some (Some t).
+Proof. intros (T & _) H. apply T. exact H. Qed.
+
+(* a thread that does not hold the token changes its own pc only *)
+Lemma ginv_set_pc_other s r t p : ginv_r s r -> token s <> Some (Some t) -> ginv_r (set_pc s t p) r.
+Proof.
+  intros G N. destruct G. unfold inflight in *.
+  assert (P : forall w, token s = Some (Some w) -> upd (pcs s) t p w = pcs s w).
+  { intros w E. apply upd_other. congruence. }
+  constructor; sproj; auto.
+  - destruct (token s) as [[w|]|]; auto. rewrite P by reflexivity. exact g_lock0.
+  - intros w E. rewrite P by exact E. apply g_dirty0. exact E.
+  - unfold inflight; sproj. destruct (token s) as [[w|]|]; auto. rewrite P by reflexivity. exact g_order0.
+  - destruct (token s) as [[w|]|]; auto. rewrite P by reflexivity. exact g_running0.
+Qed.
+
+(* the other threads keep their thread invariant when t moves and the ghost sets change compatibly *)
+Lemma thread_other s s' t u :
+  u <> t -> thread_inv s u -> pcs s' u = pcs s u ->
+  (token s' = Some (Some u) <-> token s = Some (Some u)) ->
+  (In u (wakers s') <-> In u (wakers s)) ->
+  thread_inv s' u.
+Proof.
+  intros N (T1 & T2 & T3 & T4) P K W. unfold thread_inv. rewrite P. rewrite K, W. auto.
+Qed.
+
+(* the token holder moves between two of its program points, shared state untouched *)
+Lemma ginv_holder_move s r t p' :
+  ginv_r s r -> token s = Some (Some t) ->
+  locked_pc p' = locked_pc (pcs s t) ->
+  (unlocking_pc p' = true -> unlocking_pc (pcs s t) = true \/ lst s = []) ->
+  inflight_pc p' = inflight_pc (pcs s t) -> running_pc t p' = running_pc t (pcs s t) ->
+  ginv_r (set_pc s t p') r.
+Proof.
+  intros G K L U I R. destruct G. unfold inflight in *. rewrite K in *.
+  constructor; sproj; rewrite ?K; auto.
+  - rewrite upd_same, L. exact g_lock0.
+  - intros w E. injection E as <-. rewrite upd_same. intros Hu Hl Hw.
+    destruct (U Hu) as [U'|U']; [|contradiction]. apply (g_dirty0 t); auto.
+  - unfold inflight; sproj. rewrite K, upd_same, I. exact g_order0.
+  - rewrite upd_same, R. exact g_running0.
+Qed.
+
+Lemma thread_self_holder s t p' :
+  thread_inv s t -> token_pc (pcs s t) = true -> token_pc p' = true -> waker_pc p' = false ->
+  (forall o, owned_of p' = Some o -> o = OWN) -> qos_of p' = None ->
+  thread_inv (set_pc s t p') t.
+Proof.
+  intros (T1 & T2 & T3 & T4) H H' W O Q. unfold thread_inv. sproj. rewrite upd_same. repeat split; auto.
+  - intros _. apply T1. exact H.
+  - rewrite W. discriminate.
+  - intros Hin. apply T2 in Hin. destruct (pcs s t); cbn in H, Hin; discriminate.
+  - rewrite Q in H0. discriminate.
+  - rewrite Q in H0. discriminate.
+Qed.
+
+Lemma Inv_holder_move s t p' :
+  Inv s -> token_pc (pcs s t) = true -> token_pc p' = true ->
+  locked_pc p' = locked_pc (pcs s t) ->
+  (unlocking_pc p' = true -> unlocking_pc (pcs s t) = true \/ lst s = []) ->
+  inflight_pc p' = inflight_pc (pcs s t) -> running_pc t p' = running_pc t (pcs s t) ->
+  (forall o, owned_of p' = Some o -> o = OWN) ->
+  Inv (set_pc s t p').
+Proof.
+  intros [[r G] T] H H' L U I R O. pose proof (holder s t (T t) H) as K. split.
+  - exists r. apply ginv_holder_move; auto.
+  - intros u. destruct (Z.eq_dec u t) as [->|N].
+    + apply thread_self_holder; auto.
+      * destruct p'; cbn in H' |- *; try discriminate; reflexivity.
+      * destruct p'; cbn in H' |- *; try discriminate; reflexivity.
+    + apply (thread_other s _ t u N (T u)); sproj; [apply upd_other; exact N | tauto | tauto].
+Qed.
+
+Lemma Inv_other_move s t p' :
+  Inv s -> token_pc (pcs s t) = false -> token_pc p' = false ->
+  waker_pc p' = waker_pc (pcs s t) ->
+  (forall q, qos_of p' = Some q -> 0 <= q < 8) ->
+  Inv (set_pc s t p').
+Proof.
+  intros [[r G] T] H H' W Q. pose proof (not_holder s t (T t) H) as K. split.
+  - exists r. apply ginv_set_pc_other; auto.
+  - intros u. destruct (Z.eq_dec u t) as [->|N].
+    + destruct (T t) as (T1 & T2 & T3 & T4). unfold thread_inv. sproj. rewrite upd_same. repeat split.
+      * rewrite H'. discriminate.
+      * intros E. congruence.
+      * rewrite W. apply T2.
+      * rewrite W. apply T2.
+      * intros o Ho. destruct p'; cbn in H', Ho; discriminate.
+      * apply (Q q H0).
+      * apply (Q q H0).
+    + apply (thread_other s _ t u N (T u)); sproj; [apply upd_other; exact N | tauto | tauto].
+Qed.
+
+(* ---------------------------------------------------------------- the steps *)
+Lemma begin_preserves s t c s' : Inv s -> valid_tid t -> begin s t c = Some s' -> Inv s'.
+Proof.
+  intros I V B. unfold begin in B. destruct (pcs s t) eqn:Hpc; try discriminate.
+  destruct c as [qos|floor].
+  - destruct ((0 <=? qos) && (qos <? 8)) eqn:Q; [|discriminate]. injection B as <-.
+    apply andb_true_iff in Q. destruct Q as [Q1 Q2]. apply Z.leb_le in Q1. apply Z.ltb_lt in Q2.
+    apply Inv_other_move; rewrite ?Hpc; auto.
+    intros q Hq. injection Hq as <-. lia.
+  - destruct (0 <? rootq s) eqn:R; [|discriminate]. injection B as <-. apply Z.ltb_lt in R.
+    destruct I as [[r G] T]. pose proof G as G'. destruct G'.
+    assert (K : token s = Some None).
+    { destruct (token s) as [[w|]|]; try lia. reflexivity. }
+    split.
+    + exists r. unfold inflight in *. rewrite K in *. constructor; sproj; auto.
+      * split; [intros _; discriminate | intros _; apply g_enq0; discriminate].
+      * lia.
+      * rewrite upd_same. cbn [locked_pc]. auto.
+      * intros _. left. discriminate.
+      * intros w E. injection E as <-. rewrite upd_same. discriminate.
+      * unfold inflight; sproj. rewrite upd_same. exact g_order0.
+      * rewrite upd_same. exact g_running0.
+    + intros u. destruct (Z.eq_dec u t) as [->|N].
+      * destruct (T t) as (T1 & T2 & T3 & T4). rewrite Hpc in *. unfold thread_inv. sproj. rewrite upd_same.
+        repeat split; auto; try discriminate.
+        intros Hin. apply T2 in Hin. discriminate.
+      * apply (thread_other s _ t u N (T u)); sproj; [apply upd_other; exact N | | tauto].
+        rewrite K. split; intros E; [injection E as E; congruence | discriminate].
+Qed.
+
+Lemma step_xchg s t q s' : Inv s -> pcs s t = PA_xchg q -> gstep s t = Some s' -> Inv s'.
+Proof.
+  intros [[r G] T] Hpc B. unfold gstep in B. rewrite Hpc in B. injection B as <-.
+  pose proof (not_holder s t (T t)) as K. rewrite Hpc in K. specialize (K eq_refl).
+  destruct (T t) as (T1 & T2 & T3 & T4). rewrite Hpc in T1, T2, T3, T4.
+  assert (NW : ~ In t (wakers s)) by (intros Hin; apply T2 in Hin; discriminate).
+  assert (P : forall w, token s = Some (Some w) -> upd (pcs s) t (PA_link (nextid s) match lst s with [] => true | _ => false end q) w = pcs s w).
+  { intros w E. apply upd_other. congruence. }
+  destruct G. split.
+  - exists r. constructor; sproj; auto.
+    + destruct (token s) as [[w|]|]; auto. rewrite P by reflexivity. exact g_lock0.
+    + intros _. destruct (lst s) eqn:L; [right; discriminate|]. destruct g_nostrand0 as [H|H]; [discriminate|left; exact H|right; exact H].
+    + intros w E. rewrite P by exact E. intros Hu _ Hw. destruct (lst s) eqn:L; [discriminate|].
+      apply (g_dirty0 w); auto. discriminate.
+    + destruct (lst s); [constructor; assumption | assumption].
+    + lia.
+    + unfold inflight in *; sproj. rewrite map_app. cbn [map e_id]. rewrite zrange_succ by assumption.
+      rewrite <- g_order0. destruct (token s) as [[w|]|]; rewrite ?P by reflexivity; rewrite <- ?app_assoc; reflexivity.
+    + destruct (token s) as [[w|]|]; auto. rewrite P by reflexivity. exact g_running0.
+  - intros u. destruct (Z.eq_dec u t) as [->|N].
+    + unfold thread_inv. sproj. rewrite upd_same. repeat split; try discriminate; auto.
+      * destruct (lst s); cbn [waker_pc In]; [intros _; left; reflexivity | discriminate].
+      * destruct (lst s); cbn [waker_pc In]; [reflexivity | intros Hin; contradiction].
+      * cbn [qos_of] in H. injection H as <-. apply (T4 q eq_refl).
+      * cbn [qos_of] in H. injection H as <-. apply (T4 q eq_refl).
+    + apply (thread_other s _ t u N (T u)); sproj; [apply upd_other; exact N | tauto |].
+      destruct (lst s); [|tauto]. cbn [In]. split; [intros [E|E]; [congruence|exact E] | auto].
+Qed.
+
+Lemma ginv_relink s r i : ginv_r s r -> ginv_r (set_lst s (link_id (lst s) i)) r.
+Proof.
+  intros G. destruct G. unfold inflight in *.
+  constructor; sproj; auto.
+  - rewrite link_nil_iff. exact g_nostrand0.
+  - intros w E Hu. rewrite link_nil_iff. apply (g_dirty0 w); assumption.
+  - unfold inflight; sproj. rewrite map_id_link. exact g_order0.
+Qed.
+
+Lemma thread_inv_relink s i u : thread_inv s u -> thread_inv (set_lst s (link_id (lst s) i)) u.
+Proof. intros H. exact H. Qed.
+
+Lemma step_link s t i we q s' : Inv s -> pcs s t = PA_link i we q -> gstep s t = Some s' -> Inv s'.
+Proof.
+  intros I Hpc B. unfold gstep in B. rewrite Hpc in B. injection B as <-.
+  assert (I1 : Inv (set_lst s (link_id (lst s) i))).
+  { destruct I as [[r G] T]. split; [exists r; apply ginv_relink; exact G | intros u; apply thread_inv_relink; apply T]. }
+  destruct I as [_ T]. destruct (T t) as (_ & _ & _ & T4). rewrite Hpc in T4.
+  apply Inv_other_move; sproj; rewrite ?Hpc; auto.
+  - destruct we; reflexivity.
+  - destruct we; reflexivity.
+  - destruct we; cbn [qos_of]; [|discriminate]. intros q0 E. injection E as <-. apply (T4 q eq_refl).
+Qed.
+
+Lemma step_probe s t q s' : Inv s -> pcs s t = PA_probe q -> gstep s t = Some s' -> Inv s'.
+Proof.
+  intros I Hpc B. unfold gstep in B. rewrite Hpc in B. injection B as <-.
+  destruct (lst s) eqn:L.
+  - (* the drainer already took the item: nothing to wake *)
+    destruct I as [[r G] T]. pose proof (not_holder s t (T t)) as K. rewrite Hpc in K. specialize (K eq_refl).
+    assert (P : forall w, token s = Some (Some w) -> upd (pcs s) t Idle w = pcs s w).
+    { intros w E. apply upd_other. congruence. }
+    destruct G. split.
+    + exists r. unfold inflight in *. constructor; sproj; auto.
+      * destruct (token s) as [[w|]|]; auto. rewrite P by reflexivity. exact g_lock0.
+      * intros w E _ Hl. rewrite L in Hl. congruence.
+      * apply nodup_remove_z. exact g_nodup0.
+      * unfold inflight; sproj. destruct (token s) as [[w|]|]; auto. rewrite P by reflexivity. exact g_order0.
+      * destruct (token s) as [[w|]|]; auto. rewrite P by reflexivity. exact g_running0.
+    + intros u. destruct (Z.eq_dec u t) as [->|N].
+      * unfold thread_inv. sproj. rewrite upd_same. cbn [token_pc locked_pc waker_pc owned_of qos_of orb].
+        repeat split; try discriminate.
+        -- intros E. congruence.
+        -- rewrite in_remove_z. intros [_ E]. congruence.
+      * apply (thread_other s _ t u N (T u)); sproj; [apply upd_other; exact N | tauto |].
+        rewrite in_remove_z. tauto.
+  - destruct I as [IG T]. destruct (T t) as (_ & _ & _ & T4). rewrite Hpc in T4.
+    apply Inv_other_move; rewrite ?Hpc; auto. split; [exact IG | exact T].
+Qed.
+
+Lemma wfr_mk a b c d e f g h i j k l :
+  0 <= a < 1073741824 -> 0 <= b < 2 -> 0 <= c < 2 -> 0 <= d < 8 -> 0 <= e < 2 -> 0 <= f < 4 -> 0 <= g < 2 ->
+  0 <= h < 2 -> 0 <= i < 2 -> 0 <= j < 8192 -> 0 <= k < 2 -> 0 <= l < 512 -> wfr (mk a b c d e f g h i j k l).
+Proof. intros. unfold wfr, mk; cbn. repeat split; lia. Qed.
+
+Lemma step_wake s t q tg s' : Inv s -> valid_tid t -> pcs s t = PA_wake q tg -> gstep s t = Some s' -> Inv s'.
+Proof.
+  intros [[r G] T] Vt Hpc B. unfold gstep in B. rewrite Hpc in B.
+  pose proof (not_holder s t (T t)) as K. rewrite Hpc in K. specialize (K eq_refl).
+  destruct (T t) as (T1 & T2 & T3 & T4). rewrite Hpc in T1, T2, T3, T4. pose proof (T4 q eq_refl) as Q.
+  destruct G. pose proof g_wf0 as W. unfold wfr in W.
+  rewrite g_enc0 in B. unfold ENQUEUED in B.
+  rewrite (wakeup_fields r q 3 1 g_wf0 Q eq_refl) in B. cbv zeta in B.
+  pose proof (merged_wf r q g_wf0 Q) as Wm. unfold wfr in Wm.
+  destruct (merged_same r q) as (M1 & M2 & M3 & M4 & M5 & M6 & M7 & M8 & M9 & M10).
+  set (m := merged r q) in *.
+  set (e' := if can_enqueue r then 1 else f_enq m) in *.
+  assert (He' : 0 <= e' < 2) by (subst e'; destruct (can_enqueue r); lia).
+  set (r' := mk (f_owner m) (f_tr m) e' (f_mq m) (f_ov m) (f_role m) (f_em m) 1 (f_pb m) (f_wq m) (f_ib m) (f_hi m)) in *.
+  assert (W' : wfr r') by (subst r'; apply wfr_mk; lia).
+  cbv iota beta in B. rewrite (enq_changed r r' g_wf0 W') in B.
+  assert (Fr : f_owner r' = f_owner r /\ f_ib r' = f_ib r /\ f_wq r' = f_wq r /\ f_enq r' = e' /\ f_d r' = 1 /\
+               f_tr r' = 0 /\ f_em r' = 0 /\ f_pb r' = 0 /\ f_hi r' = 0 /\ f_role r' = f_role r).
+  { subst r'. unfold mk; cbn. repeat split; congruence. }
+  destruct Fr as (F1 & F2 & F3 & F4 & F5 & F6 & F7 & F8 & F9 & F10).
+  assert (P : forall p w, token s = Some (Some w) -> upd (pcs s) t p w = pcs s w).
+  { intros p w E. apply upd_other. congruence. }
+  assert (Lk : forall x, (match x with Some (Some w) => valid_tid w /\ (if locked_pc (pcs s w) then held r w else free r) | _ => free r end) ->
+                         (match x with Some (Some w) => valid_tid w /\ (if locked_pc (pcs s w) then held r' w else free r') | _ => free r' end)).
+  { intros x. unfold held, free. rewrite F1, F2, F3. auto. }
+  destruct (can_enqueue r) eqn:CE.
+  - (* this wakeup takes the enqueued token and will push the lane on its target *)
+    unfold can_enqueue in CE. rewrite !andb_true_iff in CE. destruct CE as [[[C1 C2] C3] C4]. apply Z.eqb_eq in C2.
+    assert (Tk : token s = None).
+    { destruct (token s) eqn:E; [|reflexivity]. assert (f_enq r = 1) by (apply g_enq0; congruence). lia. }
+    assert (Ee : (f_enq r =? f_enq r') = false) by (rewrite F4; subst e'; rewrite C2; reflexivity).
+    rewrite Ee in B. cbn [negb] in B. injection B as <-. rewrite Tk in *. split.
+    + exists r'. constructor; sproj; try assumption; try lia.
+      * rewrite F4. subst e'. split; [discriminate | reflexivity].
+      * rewrite upd_same. cbn [locked_pc]. split; [|unfold free in *; rewrite F1, F2, F3; exact g_lock0].
+        exact Vt.
+      * intros _. left. discriminate.
+      * apply nodup_remove_z. exact g_nodup0.
+      * unfold inflight in *; sproj. rewrite Tk in g_order0. rewrite upd_same. exact g_order0.
+      * rewrite upd_same. exact g_running0.
+    + intros u. destruct (Z.eq_dec u t) as [->|N].
+      * unfold thread_inv. sproj. rewrite upd_same. cbn [token_pc locked_pc waker_pc owned_of qos_of orb].
+        repeat split; try discriminate; auto.
+        rewrite in_remove_z. intros [_ E]. congruence.
+      * apply (thread_other s _ t u N (T u)); sproj; [apply upd_other; exact N | | rewrite in_remove_z; tauto].
+        rewrite Tk. split; intros E; [injection E as E; congruence | discriminate].
+  - (* already enqueued, or locked: DIRTY alone tells the drainer *)
+    assert (Ee : (f_enq r =? f_enq r') = true) by (rewrite F4; subst e'; rewrite M3; apply Z.eqb_refl).
+    rewrite Ee in B. cbn [negb] in B. injection B as <-.
+    assert (Resp : token s <> None).
+    { unfold can_enqueue in CE. rewrite g_hi0, g_em0 in CE. cbn [Z.eqb andb] in CE.
+      destruct (Z.eqb_spec (f_enq r) 0) as [E0|E0]; cbn [andb] in CE.
+      - apply orb_false_iff in CE. destruct CE as [CE _].
+        destruct (token s) as [[w|]|]; try discriminate.
+        unfold free in g_lock0. destruct g_lock0 as (O & _). rewrite O in CE. discriminate.
+      - apply g_enq0. lia. }
+    split.
+    + exists r'. constructor; sproj; try assumption; try lia.
+      * rewrite F4. subst e'. rewrite M3. exact g_enq0.
+      * specialize (Lk (token s) g_lock0). destruct (token s) as [[w|]|]; auto. rewrite P by reflexivity. exact Lk.
+      * intros _. left. exact Resp.
+      * apply nodup_remove_z. exact g_nodup0.
+      * unfold inflight in *; sproj. destruct (token s) as [[w|]|]; auto. rewrite P by reflexivity. exact g_order0.
+      * destruct (token s) as [[w|]|]; auto. rewrite P by reflexivity. exact g_running0.
+    + intros u. destruct (Z.eq_dec u t) as [->|N].
+      * unfold thread_inv. sproj. rewrite upd_same. cbn [token_pc locked_pc waker_pc owned_of qos_of orb].
+        repeat split; try discriminate; auto.
+        rewrite in_remove_z. intros [_ E]. congruence.
+      * apply (thread_other s _ t u N (T u)); sproj; [apply upd_other; exact N | tauto | rewrite in_remove_z; tauto].
+Qed.
+
+Lemma step_rootpush s t s' : Inv s -> pcs s t = PA_rootpush -> gstep s t = Some s' -> Inv s'.
+Proof.
+  intros [[r G] T] Hpc B. unfold gstep in B. rewrite Hpc in B. injection B as <-.
+  pose proof (holder s t (T t)) as K. rewrite Hpc in K. specialize (K eq_refl).
+  destruct G. unfold inflight in *. rewrite K in *. rewrite Hpc in *. cbn [locked_pc] in g_lock0. split.
+  - exists r. constructor; sproj; try assumption; try lia.
+    + split; [discriminate | intros _; apply g_enq0; discriminate].
+    + tauto.
+    + intros _. left. discriminate.
+    + discriminate.
+  - intros u. destruct (Z.eq_dec u t) as [->|N].
+    + unfold thread_inv. sproj. rewrite upd_same. cbn [token_pc locked_pc waker_pc owned_of qos_of orb].
+      destruct (T t) as (_ & T2 & _). rewrite Hpc in T2. cbn [waker_pc] in T2.
+      repeat split; try discriminate; auto. apply T2.
+    + apply (thread_other s _ t u N (T u)); sproj; [apply upd_other; exact N | | tauto].
+      rewrite K. split; intros E; [discriminate | injection E as E; congruence].
+Qed.
+
+Lemma OWN_from_lock : 18014398509481984 + 9007199254740992 + 2147483648 * 1 - 2199023255552 * 4095 = OWN.
+Proof. reflexivity. Qed.
+
+Lemma step_lock s t fl s' : Inv s -> pcs s t = PW_lock fl -> gstep s t = Some s' -> Inv s'.
+Proof.
+  intros [[r G] T] Hpc B. unfold gstep in B. rewrite Hpc in B.
+  pose proof (holder s t (T t)) as K. rewrite Hpc in K. specialize (K eq_refl).
+  pose proof G as G'. destruct G'. unfold inflight in *. rewrite K in *. rewrite Hpc in *. cbn [locked_pc] in g_lock0.
+  destruct g_lock0 as [Vt (O & Ib & Wq)]. pose proof g_wf0 as W. unfold wfr in W.
+  assert (En : f_enq r = 1) by (apply g_enq0; discriminate).
+  rewrite g_enc0 in B. rewrite (lock_fields r t fl 0 g_wf0 Vt) in B.
+  assert (LF : lock_free r = true).
+  { unfold lock_free. rewrite O, g_em0, Ib, g_hi0, Wq. reflexivity. }
+  rewrite LF in B.
+  destruct ((f_role r mod 2 =? 1) && (fl <? f_mq r)) eqn:OV.
+  - (* the lock would need a QoS override first: retry with the queue's max QoS as floor *)
+    injection B as <-.
+    apply Inv_holder_move; rewrite ?Hpc; try reflexivity; try discriminate.
+    split; [exists r; exact G | exact T].
+  - rewrite En, Wq in B. rewrite OWN_from_lock in B.
+    change (OWN =? 0) with false in B. cbv iota in B. injection B as <-.
+    set (r' := mk t 0 1 (f_mq r) 0 (f_role r) 0 0 0 4096 1 0) in *.
+    split.
+    + exists r'. subst r'. constructor; sproj; rewrite ?K; unfold mk; cbn [f_tr f_em f_pb f_hi f_role f_enq f_d];
+        try assumption; try lia; try reflexivity.
+      * apply wfr_mk; unfold valid_tid in Vt; lia.
+      * split; [discriminate | reflexivity].
+      * rewrite upd_same. cbn [locked_pc]. split; [exact Vt | unfold held; cbn; auto].
+      * intros w E. injection E as <-. rewrite upd_same. discriminate.
+      * unfold inflight; sproj. rewrite K, upd_same. exact g_order0.
+      * rewrite upd_same. exact g_running0.
+    + intros u. destruct (Z.eq_dec u t) as [->|N].
+      * unfold thread_inv. sproj. rewrite upd_same. cbn [token_pc locked_pc waker_pc owned_of qos_of orb].
+        destruct (T t) as (_ & T2 & _). rewrite Hpc in T2. cbn [waker_pc] in T2.
+        repeat split; try discriminate; auto.
+        -- apply T2.
+        -- intros o E. injection E as <-. reflexivity.
+      * apply (thread_other s _ t u N (T u)); sproj; [apply upd_other; exact N | tauto | tauto].
+Qed.
+
+Lemma OWN_unlock : Z.lor (Z.land OWN ENQUEUED) SERIAL_OWNED = OWN.
+Proof. reflexivity. Qed.
+
+Lemma owned_is_OWN s t o : Inv s -> owned_of (pcs s t) = Some o -> o = OWN.
+Proof. intros [_ T] H. destruct (T t) as (_ & _ & T3 & _). apply T3. exact H. Qed.
+
+Lemma step_tail s t o s' : Inv s -> pcs s t = PW_tail o -> gstep s t = Some s' -> Inv s'.
+Proof.
+  intros I Hpc B. unfold gstep in B. rewrite Hpc in B. injection B as <-.
+  assert (o = OWN) by (apply (owned_is_OWN s t); [exact I | rewrite Hpc; reflexivity]). subst o.
+  destruct (lst s) eqn:L.
+  - rewrite ?OWN_unlock. apply Inv_holder_move; rewrite ?Hpc; try reflexivity; auto.
+    intros o E. injection E as <-. reflexivity.
+  - apply Inv_holder_move; rewrite ?Hpc; try reflexivity; auto; try discriminate.
+    intros o E. injection E as <-. reflexivity.
+Qed.
+
+Lemma step_head s t o s' : Inv s -> pcs s t = PW_head o -> gstep s t = Some s' -> Inv s'.
+Proof.
+  intros I Hpc B. unfold gstep in B. rewrite Hpc in B.
+  assert (o = OWN) by (apply (owned_is_OWN s t); [exact I | rewrite Hpc; reflexivity]). subst o.
+  destruct (lst s) as [|e l]; [discriminate|]. destruct (e_linked e); [|discriminate]. injection B as <-.
+  apply Inv_holder_move; rewrite ?Hpc; try reflexivity; auto; try discriminate.
+  intros o E. injection E as <-. reflexivity.
+Qed.
+
+Lemma step_next s t o m s' : Inv s -> pcs s t = PW_next o m -> gstep s t = Some s' -> Inv s'.
+Proof.
+  intros I Hpc B. unfold gstep in B. rewrite Hpc in B.
+  assert (o = OWN) by (apply (owned_is_OWN s t); [exact I | rewrite Hpc; reflexivity]). subst o.
+  destruct m.
+  - injection B as <-. apply Inv_holder_move; rewrite ?Hpc; try reflexivity; auto; try discriminate.
+    intros o E. injection E as <-. reflexivity.
+  - injection B as <-. destruct (lst s) eqn:L.
+    + rewrite ?OWN_unlock. apply Inv_holder_move; rewrite ?Hpc; try reflexivity; auto.
+      intros o E. injection E as <-. reflexivity.
+    + apply Inv_holder_move; rewrite ?Hpc; try reflexivity; auto; try discriminate.
+      intros o E. injection E as <-. reflexivity.
+Qed.
+
+(* a step of the token holder that changes ghost / list state: the other threads are unaffected *)
+Lemma threads_after_holder_step s s' t p' :
+  (forall u, thread_inv s u) -> token s = Some (Some t) -> token s' = Some (Some t) -> wakers s' = wakers s ->
+  pcs s' = upd (pcs s) t p' -> token_pc p' = true -> (forall o, owned_of p' = Some o -> o = OWN) ->
+  forall u, thread_inv s' u.
+Proof.
+  intros T K K' Wk P H O u. destruct (Z.eq_dec u t) as [->|N].
+  - destruct (T t) as (T1 & T2 & T3 & T4). unfold thread_inv. rewrite P, upd_same, K', Wk. repeat split; auto.
+    + destruct p'; cbn in H |- *; discriminate.
+    + intros Hin. apply T2 in Hin. apply T1 in K. destruct (pcs s t); cbn in K, Hin; discriminate.
+    + destruct p'; cbn in H, H0; discriminate.
+    + destruct p'; cbn in H, H0; discriminate.
+  - apply (thread_other s _ t u N (T u)); [rewrite P; apply upd_other; exact N | rewrite K, K'; tauto | rewrite Wk; tauto].
+Qed.
+
+Lemma step_pop s t o s' : Inv s -> pcs s t = PW_pop o -> gstep s t = Some s' -> Inv s'.
+Proof.
+  intros I Hpc B. unfold gstep in B. rewrite Hpc in B.
+  assert (o = OWN) by (apply (owned_is_OWN s t); [exact I | rewrite Hpc; reflexivity]). subst o.
+  destruct I as [[r G] T].
+  pose proof (holder s t (T t)) as K. rewrite Hpc in K. specialize (K eq_refl).
+  destruct G. unfold inflight in *. rewrite K in *. rewrite Hpc in *. cbn [locked_pc inflight_pc running_pc app] in *.
+  destruct (lst s) as [|e [|e2 l']] eqn:L; [discriminate| |].
+  - injection B as <-. split.
+    + exists r. constructor; sproj; rewrite ?K, ?upd_same; try assumption; try lia.
+      * congruence.
+      * intros w _ _ E. congruence.
+      * unfold inflight; sproj. rewrite K, upd_same. exact g_order0.
+    + apply (threads_after_holder_step s _ t (PW_run OWN (e_id e) false)); auto.
+      intros o E. injection E as <-. reflexivity.
+  - destruct (e_linked e2); [|discriminate]. injection B as <-. split.
+    + exists r. constructor; sproj; rewrite ?K, ?upd_same; try assumption; try lia.
+      * intros _. left. discriminate.
+      * intros w E. injection E as <-. rewrite upd_same. discriminate.
+      * unfold inflight; sproj. rewrite K, upd_same. exact g_order0.
+    + apply (threads_after_holder_step s _ t (PW_run OWN (e_id e) true)); auto.
+      intros o E. injection E as <-. reflexivity.
+Qed.
+
+Lemma step_run s t o i m s' : Inv s -> pcs s t = PW_run o i m -> gstep s t = Some s' -> Inv s'.
+Proof.
+  intros I Hpc B. unfold gstep in B. rewrite Hpc in B. injection B as <-.
+  assert (o = OWN) by (apply (owned_is_OWN s t); [exact I | rewrite Hpc; reflexivity]). subst o.
+  destruct I as [[r G] T].
+  pose proof (holder s t (T t)) as K. rewrite Hpc in K. specialize (K eq_refl).
+  destruct G. unfold inflight in *. rewrite K in *. rewrite Hpc in *. cbn [locked_pc inflight_pc running_pc app] in *.
+  split.
+  - exists r. constructor; sproj; rewrite ?K, ?upd_same; try assumption; try lia; try reflexivity.
+    + intros w E. injection E as <-. rewrite upd_same. discriminate.
+    + unfold inflight; sproj. rewrite ?K, upd_same. cbn [rev inflight_pc app]. rewrite <- app_assoc. exact g_order0.
+  - apply (threads_after_holder_step s _ t (PW_incall OWN i m)); auto.
+    intros o E. injection E as <-. reflexivity.
+Qed.
+
+Lemma step_incall s t o i m s' : Inv s -> pcs s t = PW_incall o i m -> gstep s t = Some s' -> Inv s'.
+Proof.
+  intros I Hpc B. unfold gstep in B. rewrite Hpc in B. injection B as <-.
+  assert (o = OWN) by (apply (owned_is_OWN s t); [exact I | rewrite Hpc; reflexivity]). subst o.
+  destruct I as [[r G] T].
+  pose proof (holder s t (T t)) as K. rewrite Hpc in K. specialize (K eq_refl).
+  destruct G. unfold inflight in *. rewrite K in *. rewrite Hpc in *. cbn [locked_pc inflight_pc running_pc app] in *.
+  split.
+  - exists r. constructor; sproj; rewrite ?K, ?upd_same; try assumption; try lia; try reflexivity.
+    + intros w E. injection E as <-. rewrite upd_same. discriminate.
+    + unfold inflight; sproj. rewrite ?K, upd_same. exact g_order0.
+  - apply (threads_after_holder_step s _ t (PW_next OWN m)); auto.
+    intros o E. injection E as <-. reflexivity.
+Qed.
+
+Lemma step_unlock s t o s' : Inv s -> pcs s t = PW_unlock o -> gstep s t = Some s' -> Inv s'.
+Proof.
+  intros I Hpc B. unfold gstep in B. rewrite Hpc in B.
+  assert (o = OWN) by (apply (owned_is_OWN s t); [exact I | rewrite Hpc; reflexivity]). subst o.
+  pose proof I as I'. destruct I' as [[r G] T].
+  pose proof (holder s t (T t)) as K. rewrite Hpc in K. specialize (K eq_refl).
+  destruct G. unfold inflight in *. rewrite K in *. rewrite Hpc in *. cbn [locked_pc inflight_pc running_pc app] in *.
+  destruct g_lock0 as [Vt (O & Ib & Wq)]. pose proof g_wf0 as W. unfold wfr in W.
+  assert (En : f_enq r = 1) by (apply g_enq0; discriminate).
+  rewrite g_enc0 in B.
+  change OWN with (18014398509481984 + 2199023255552 + 2147483648 * 1) in B.
+  rewrite (unlock_fields r 1 g_wf0 g_hi0 Ib Wq) in B by lia.
+  destruct (Z.eqb_spec (f_d r) 1) as [D|D].
+  - (* refused: somebody made the queue dirty; clear the bit and look again *)
+    injection B as <-. change (18014398509481984 + 2199023255552 + 2147483648 * 1) with OWN.
+    apply Inv_holder_move; rewrite ?Hpc; try reflexivity; auto.
+    intros o E. injection E as <-. reflexivity.
+  - injection B as <-.
+    set (r' := mk 0 0 (f_enq r - 1) 0 0 (f_role r) (f_em r) 0 (f_pb r) 4095 0 0) in *.
+    split.
+    + exists r'. subst r'. constructor; sproj; unfold mk; cbn [f_tr f_em f_pb f_hi f_role f_enq f_d];
+        try assumption; try lia; try reflexivity.
+      * apply wfr_mk; lia.
+      * rewrite En. split; [discriminate | congruence].
+      * unfold free; cbn; auto.
+      * intros Hl. right. intros Hw. apply D. apply (g_dirty0 t); auto. rewrite Hpc. reflexivity.
+      * discriminate.
+    + intros u. destruct (Z.eq_dec u t) as [->|N].
+      * unfold thread_inv. sproj. rewrite upd_same. cbn [token_pc locked_pc waker_pc owned_of qos_of orb].
+        destruct (T t) as (_ & T2 & _). rewrite Hpc in T2. cbn [waker_pc] in T2.
+        repeat split; try discriminate; auto. apply T2.
+      * apply (thread_other s _ t u N (T u)); sproj; [apply upd_other; exact N | | tauto].
+        rewrite K. split; intros E; [discriminate | injection E as E; congruence].
+Qed.
+
+Lemma step_xor s t o s' : Inv s -> pcs s t = PW_xor o -> gstep s t = Some s' -> Inv s'.
+Proof.
+  intros I Hpc B. unfold gstep in B. rewrite Hpc in B. injection B as <-.
+  assert (o = OWN) by (apply (owned_is_OWN s t); [exact I | rewrite Hpc; reflexivity]). subst o.
+  destruct I as [[r G] T].
+  pose proof (holder s t (T t)) as K. rewrite Hpc in K. specialize (K eq_refl).
+  destruct G. unfold inflight in *. rewrite K in *. rewrite Hpc in *. cbn [locked_pc inflight_pc running_pc app] in *.
+  pose proof g_wf0 as W. unfold wfr in W.
+  unfold DIRTY. rewrite g_enc0. rewrite (xor_dirty_fields r g_wf0).
+  set (r' := mk (f_owner r) (f_tr r) (f_enq r) (f_mq r) (f_ov r) (f_role r) (f_em r) (1 - f_d r) (f_pb r) (f_wq r) (f_ib r) (f_hi r)).
+  split.
+  - exists r'. subst r'. constructor; sproj; rewrite ?K, ?upd_same; unfold mk; cbn [f_tr f_em f_pb f_hi f_role f_enq f_d];
+      try assumption; try lia; try reflexivity.
+    + apply wfr_mk; lia.
+    + intros w E. injection E as <-. rewrite upd_same. discriminate.
+    + unfold inflight; sproj. rewrite ?K, upd_same. exact g_order0.
+  - apply (threads_after_holder_step s _ t (PW_tail OWN)); auto.
+    intros o E. injection E as <-. reflexivity.
+Qed.
+
+Theorem step_preserves s a s' : Inv s -> step s a s' -> Inv s'.
+Proof.
+  intros I H. destruct a as [t c|t]; destruct H as [V B].
+  - exact (begin_preserves s t c s' I V B).
+  - destruct (pcs s t) eqn:Hpc.
+    + unfold gstep in B. rewrite Hpc in B. discriminate.
+    + eapply step_xchg; eauto.
+    + eapply step_link; eauto.
+    + eapply step_probe; eauto.
+    + eapply step_wake; eauto.
+    + eapply step_rootpush; eauto.
+    + eapply step_lock; eauto.
+    + eapply step_tail; eauto.
+    + eapply step_head; eauto.
+    + eapply step_pop; eauto.
+    + eapply step_run; eauto.
+    + eapply step_incall; eauto.
+    + eapply step_next; eauto.
+    + eapply step_unlock; eauto.
+    + eapply step_xor; eauto.
+Qed.
+
+Theorem Inv_reachable rb s : 0 <= rb < 2 -> reach rb s -> Inv s.
+Proof.
+  intros Hrb. apply invariant_lift.
+  - intros s0 ->. apply Inv_init. exact Hrb.
+  - intros s1 a s2 I H. exact (step_preserves s1 a s2 I H).
+Qed.
+
+(* ---------------------------------------------------------------- what the invariant says to a client *)
+(* the drain lock is exclusive: two threads inside the locked region are the same thread *)
+Theorem lock_exclusive rb s t1 t2 :
+  0 <= rb < 2 -> reach rb s -> locked_pc (pcs s t1) = true -> locked_pc (pcs s t2) = true -> t1 = t2.
+Proof.
+  intros Hrb R L1 L2. destruct (Inv_reachable rb s Hrb R) as [_ T].
+  pose proof (holder s t1 (T t1)) as K1. pose proof (holder s t2 (T t2)) as K2.
+  unfold token_pc in K1, K2. rewrite L1 in K1. rewrite L2 in K2. specialize (K1 eq_refl). specialize (K2 eq_refl). congruence.
+Qed.
+
+(* at most one work item of the lane is inside its callout, and the ghost "running" names it *)
+Theorem callouts_exclusive rb s t1 t2 o1 i1 m1 o2 i2 m2 :
+  0 <= rb < 2 -> reach rb s -> pcs s t1 = PW_incall o1 i1 m1 -> pcs s t2 = PW_incall o2 i2 m2 ->
+  t1 = t2 /\ i1 = i2 /\ running s = Some (t1, i1).
+Proof.
+  intros Hrb R P1 P2.
+  assert (E : t1 = t2) by (apply (lock_exclusive rb s t1 t2 Hrb R); [rewrite P1 | rewrite P2]; reflexivity).
+  subst t2. rewrite P1 in P2. injection P2 as _ <- _. repeat split.
+  destruct (Inv_reachable rb s Hrb R) as [[r G] T]. destruct G.
+  pose proof (holder s t1 (T t1)) as K. rewrite P1 in K. specialize (K eq_refl).
+  rewrite g_running0, K, P1. reflexivity.
+Qed.
+
+Lemma prefix_nodup {A} (l1 l2 l : list A) : l1 ++ l2 = l -> NoDup l -> NoDup l1.
+Proof.
+  intros <-. induction l1 as [|a l1 IH]; cbn [app]; intros H; [constructor|].
+  inversion H as [|x l' Hx Hl]; subst. constructor; [|apply IH; exact Hl].
+  intros Hin. apply Hx. apply in_or_app. left. exact Hin.
+Qed.
+
+(* callouts begin in tail-exchange (= submission) order, each item at most once, and only submitted items *)
+Theorem started_in_order rb s :
+  0 <= rb < 2 -> reach rb s ->
+  exists rest, zrange (nextid s) = rev (started s) ++ rest /\ NoDup (started s) /\
+               (forall i, In i (started s) -> 0 <= i < nextid s).
+Proof.
+  intros Hrb R. destruct (Inv_reachable rb s Hrb R) as [[r G] T]. destruct G.
+  exists (inflight s ++ map e_id (lst s)). split; [symmetry; exact g_order0|].
+  assert (ND : NoDup (rev (started s))) by (apply (prefix_nodup _ _ _ g_order0), zrange_nodup).
+  split.
+  - apply NoDup_rev in ND. rewrite rev_involutive in ND. exact ND.
+  - intros i Hi. apply in_zrange. rewrite <- g_order0. apply in_or_app. left. apply in_rev in Hi. exact Hi.
+Qed.
+
+(* the k-th callout to begin is item k *)
+Corollary kth_started_is_k rb s k :
+  0 <= rb < 2 -> reach rb s -> (k < length (started s))%nat -> nth k (rev (started s)) (-1) = Z.of_nat k.
+Proof.
+  intros Hrb R Hk. destruct (started_in_order rb s Hrb R) as (rest & E & _ & _).
+  assert (Hk' : (k < length (rev (started s)))%nat) by (rewrite rev_length; exact Hk).
+  rewrite <- (app_nth1 (rev (started s)) rest (-1) Hk'). rewrite <- E. unfold zrange.
+  assert (Hlen : (length (rev (started s)) <= length (zrange (nextid s)))%nat) by (rewrite E, app_length; lia).
+  unfold zrange in Hlen. rewrite map_length, seq_length in Hlen.
+  replace (-1) with (Z.of_nat 0 - 1) by reflexivity.
+  change (Z.of_nat 0 - 1) with (-1).
+  rewrite (nth_indep _ (-1) (Z.of_nat 0)) by (rewrite map_length, seq_length; lia).
+  rewrite map_nth. rewrite seq_nth by lia. reflexivity.
+Qed.
+
+(* nothing is stranded: when no thread is inside an API call or a drain, a non-empty lane sits in its target
+   queue (a worker of that queue can pick it up: `begin (CWorker _)` is enabled) *)
+Definition quiescent (s : gst) : Prop := forall t, pcs s t = Idle.
+
+Theorem not_stranded rb s :
+  0 <= rb < 2 -> reach rb s -> quiescent s -> lst s <> [] -> rootq s = 1 /\ token s = Some None.
+Proof.
+  intros Hrb R Q L. destruct (Inv_reachable rb s Hrb R) as [[r G] T]. destruct G.
+  assert (Wk : wakers s = []).
+  { destruct (wakers s) as [|w l] eqn:E; [reflexivity|]. destruct (T w) as (_ & T2 & _). rewrite Q in T2.
+    assert (In w (wakers s)) by (rewrite E; left; reflexivity). apply T2 in H. discriminate. }
+  destruct (g_nostrand0 L) as [H|H]; [|congruence].
+  destruct (token s) as [[w|]|] eqn:K; [| split; [rewrite g_rootq0; reflexivity | reflexivity] | congruence].
+  destruct (T w) as (T1 & _). rewrite Q in T1. assert (token_pc Idle = true) by (apply T1; exact K). discriminate.
+Qed.
+
+(* ... and when moreover the lane is not enqueued anywhere, every submitted item has run, in order *)
+Theorem quiescent_all_done rb s :
+  0 <= rb < 2 -> reach rb s -> quiescent s -> rootq s = 0 ->
+  lst s = [] /\ rev (started s) = zrange (nextid s) /\ running s = None.
+Proof.
+  intros Hrb R Q Z0.
+  assert (L : lst s = []).
+  { destruct (lst s) eqn:E; [reflexivity|]. assert (lst s <> []) by congruence.
+    destruct (not_stranded rb s Hrb R Q H). lia. }
+  destruct (Inv_reachable rb s Hrb R) as [[r G] T]. destruct G. split; [exact L|].
+  assert (NH : forall w, token s <> Some (Some w)).
+  { intros w K. destruct (T w) as (T1 & _). rewrite Q in T1. assert (token_pc Idle = true) by (apply T1; exact K). discriminate. }
+  split.
+  - rewrite <- g_order0, L. unfold inflight. destruct (token s) as [[w|]|] eqn:K; [exfalso; apply (NH w); reflexivity| |];
+      cbn [map app]; rewrite app_nil_r; reflexivity.
+  - rewrite g_running0. destruct (token s) as [[w|]|] eqn:K; [exfalso; apply (NH w); reflexivity| |]; reflexivity.
 Qed.
